@@ -1726,12 +1726,18 @@ class EndStmtBase(StmtBase):
             # string doesn't begin with 'END'
             return None
         line = string[3:].lstrip()
-        start = line[: len(stmt_type)].upper()
-        if start:
-            if start.replace(" ", "") != stmt_type.replace(" ", ""):
+        if line:
+            # The words of the type (e.g. "BLOCK DATA") may be separated by
+            # any amount of white space, or by none.
+            type_match = re.match(
+                r"\s*".join(re.escape(word) for word in stmt_type.split()),
+                line,
+                re.IGNORECASE,
+            )
+            if not type_match:
                 # Not the correct type of 'END ...' statement.
                 return None
-            line = line[len(stmt_type) :].lstrip()
+            line = line[type_match.end() :].lstrip()
         else:
             if require_stmt_type:
                 # No type was found but one is required.
